@@ -628,3 +628,53 @@ func Triple(sys semver.System, g *rapid.Generator[string]) *rapid.Generator[[3]s
 		return out
 	})
 }
+
+// WildcardPattern generates version strings with wildcard components (1.x,
+// 1.2.*, *, NuGet floating versions) mixed with the short and zero-padded
+// spellings of the same numbers, which Parse accepts in Default, NPM, Cargo
+// and NuGet.
+func WildcardPattern(sys semver.System) *rapid.Generator[string] {
+	return rapid.Custom(func(t *rapid.T) string {
+		num := rapid.SampledFrom([]string{"0", "1", "2", "10"})
+		wild := "*"
+		if sys != semver.NuGet {
+			wild = rapid.SampledFrom([]string{"*", "x", "X"}).Draw(t, "wild")
+		}
+		n := rapid.IntRange(1, 3).Draw(t, "ncomp")
+		if sys == semver.NuGet {
+			n = rapid.IntRange(1, 4).Draw(t, "ncomp4")
+		}
+		var parts []string
+		for i := 0; i < n; i++ {
+			parts = append(parts, num.Draw(t, "n"))
+		}
+		switch rapid.IntRange(0, 5).Draw(t, "shape") {
+		case 0, 1: // last component wild
+			parts[n-1] = wild
+		case 2: // wild tail of length two
+			parts[n-1] = wild
+			if n >= 2 && sys != semver.NuGet {
+				parts[n-2] = wild
+			}
+		case 3: // zero tail
+			parts[n-1] = "0"
+		case 4: // plain
+		case 5: // wildcard, then something appended
+			parts[n-1] = wild
+		}
+		s := strings.Join(parts, ".")
+		if sys == semver.NuGet {
+			switch rapid.IntRange(0, 7).Draw(t, "nugetpre") {
+			case 0:
+				s += "-*"
+			case 1:
+				s += "-rc*"
+			case 2:
+				s += "-rc.*"
+			}
+		} else if rapid.IntRange(0, 5).Draw(t, "pre") == 0 {
+			s += rapid.SampledFrom([]string{"-beta", "-0", "+b1"}).Draw(t, "presuffix")
+		}
+		return s
+	})
+}
